@@ -28,7 +28,7 @@ def sh(cmd, cwd=None, timeout=3600, env=ENV):
 
 def failing(log):
     pk = set(re.findall(r"^(?:FAIL|---\s*FAIL:?)\s+(\S+)", log, re.M))
-    return sorted(x for x in pk if x)
+    return sorted(x for x in pk if x and x != "FAIL" and "/" not in x)
 
 
 meta = json.load(open(os.path.join(OUT, "meta.json")))
